@@ -3,7 +3,7 @@
 Every assumption made here is listed in common.PORT_CONTRACT and printed in
 the evidence files.
 """
-from .terms import (C, ZERO, ONE, UNINIT, Dom, INF, Lin, lin_of, term_of_lin, is_const, mk_byte, mk_cat, to_bytes, short)
+from .terms import (maybe_uninit, C, ZERO, ONE, UNINIT, Dom, INF, Lin, lin_of, term_of_lin, is_const, mk_byte, mk_cat, to_bytes, short)
 from .state import Unsupported
 from . import mem
 from .absint import Val
@@ -121,7 +121,7 @@ class PortModel(object):
             I.oblige(ok, 'bad-free', node, why)
             if o.heap and o.live:
                 o.live = False
-                o.cells = {}
+                o.cells.clear()
                 o.ptr_fields = None
             s2.effect(('free', oid))
             out.append((s2, Val(rty, ZERO)))
@@ -145,7 +145,7 @@ class PortModel(object):
                 cnt = int(dn.const())
                 I.raw_store(s2, oid, off, cnt, [b] * cnt)
             elif s2.canon(off) == ZERO and s2.prove_le(o.size, nt) and not o.weak:
-                o.cells = {}
+                o.cells.clear()
                 if isinstance(o.ptr_fields, dict):
                     o.ptr_fields = None
                 o.default = 'zero' if b == ZERO else 'unknown'
@@ -153,7 +153,7 @@ class PortModel(object):
                 I.note_store(s2, oid, off, 0, None, None)
             elif s2.canon(off) == ZERO and not o.weak:
                 # prefix of symbolic length
-                o.cells = {}
+                o.cells.clear()
                 o.default = 'zero' if b == ZERO else 'unknown'
                 o.zeroed_n = nt
             else:
@@ -182,8 +182,10 @@ class PortModel(object):
                 if dn.const() is not None and dn.const() <= 4096:
                     cnt = int(dn.const())
                     bs = mem.load_bytes(s3, so, soff, cnt)
-                    if any(b == UNINIT for b in bs):
-                        I.oblige(False, 'uninit-copy', node, 'memcpy copies %d uninitialised byte(s) from %s' % (sum(1 for b in bs if b == UNINIT), soid))
+                    cbs = [s3.canon(b) for b in bs]
+                    if any(maybe_uninit(b) for b in cbs):
+                        I.oblige(False, 'uninit-copy', node, 'memcpy copies %d possibly uninitialised byte(s) from %s (e.g. a buffer a failing getter left untouched)'
+                                 % (sum(1 for b in cbs if maybe_uninit(b)), soid))
                     else:
                         I.oblige(True, 'uninit-copy', node, '')
                     I.raw_store(s3, doid, doff, cnt, bs)
